@@ -20,7 +20,8 @@ CONSTANTS MaxDefs, Enabled, Shard, NShards
 
 Kinds == {"function", "async", "method", "nested", "class"}
 \* "odd_defaults": default values whose TEXT is hostile to textual header rewriting (runs of spaces, a '#', brackets, a colon)
-Sigs == {"plain", "defaults", "annotated", "varargs", "kwonly", "multiline", "multiline_comment", "decorated", "odd_defaults"}
+\* "posonly": positional-only parameters, with defaults, before the `/`
+Sigs == {"plain", "defaults", "annotated", "varargs", "kwonly", "multiline", "multiline_comment", "decorated", "odd_defaults", "posonly"}
 \* "types_only": a ReST docstring that holds nothing but `:type` / `:rtype:` lines; "blank": `""" """` -- docstrings that re-emit as EMPTY
 \* under some configurations (then the docstring statement is deleted)
 Docs == {"none", "rest", "google", "numpydoc", "types_only", "blank"}
@@ -62,7 +63,9 @@ VARIABLES prog, cfg, pc, mem, disk, writes, failed, failat
 vars == <<prog, cfg, pc, mem, disk, writes, failed, failat>>
 SE == INSTANCE SequencesExt
 ProgSeq == SE!SetToSeq(Programs)
-Init == /\ prog \in {ProgSeq[k] : k \in {j \in 1..Len(ProgSeq) : j % NShards = Shard}}
+\* (the sequence is handed over as an ARGUMENT: TLC evaluates an argument once, a definition indexed inside a set constructor every time)
+ShardOf(seq) == {seq[k] : k \in {j \in 1..Len(seq) : j % NShards = Shard}}
+Init == /\ prog \in ShardOf(ProgSeq)
         /\ cfg \in Cfgs /\ failat \in 0..6                                 \* 0 = no fault injected
         /\ pc = 1 /\ mem = prog /\ disk = "original" /\ writes = 0 /\ failed = FALSE
 Fail == pc <= 6 /\ failat = pc /\ ~failed /\ failed' = TRUE /\ UNCHANGED <<prog, cfg, pc, mem, disk, writes, failat>>
